@@ -110,8 +110,11 @@ fn build(s: &Sh, g: &mut Gen, r: &mut Ref) -> Geometry<f64> {
         Sh::Pg(e, hs) => Geometry::Polygon(build_poly(*e, hs, g, r)),
         Sh::MPg(ps) => Geometry::MultiPolygon(MultiPolygon(ps.iter().map(|(e, hs)| build_poly(*e, hs, g, r)).collect())),
         Sh::Rc => {
-            let a = g.next();
-            let b = cc(a.x + 3.5, a.y + 1.25);
+            let a0 = g.next();
+            // every other Rect gets corners of very different magnitude and sign (min + (max - min) != max in floating point): the traversal must
+            // show the stored corners themselves, not values recomputed from width and height
+            let k = g.n as f64; // distinct per generated coordinate
+            let (a, b) = if g.n % 2 == 1 { (cc(-73.98 - k * 0.01, -0.1 - k * 0.001), cc(0.1 + k * 0.013, 0.3 + k * 0.007)) } else { (a0, cc(a0.x + 3.5, a0.y + 1.25)) };
             let rect = Rect::new(a, b);
             // documented traversal: (max.x,min.y),(max.x,max.y),(min.x,max.y),(min.x,min.y)
             let v = vec![cc(b.x, a.y), cc(b.x, b.y), cc(a.x, b.y), cc(a.x, a.y)];
